@@ -16,9 +16,18 @@ func New[K comparable, V any]() *SyncMap[K, V] {
 	}
 }
 
+// Iterates over the keys that were in the map when the iteration started.
+// The map may be modified (also by the loop body) while iterating.
 func (s *SyncMap[K, V]) Keys() iter.Seq[K] {
 	return func(yield func(K) bool) {
+		s.mu.RLock()
+		keys := make([]K, 0, len(s.ma))
 		for k := range s.ma {
+			keys = append(keys, k)
+		}
+		s.mu.RUnlock()
+
+		for _, k := range keys {
 			if !yield(k) {
 				return
 			}
@@ -26,9 +35,18 @@ func (s *SyncMap[K, V]) Keys() iter.Seq[K] {
 	}
 }
 
+// Iterates over the values that were in the map when the iteration started.
+// The map may be modified (also by the loop body) while iterating.
 func (s *SyncMap[K, V]) Items() iter.Seq[V] {
 	return func(yield func(V) bool) {
+		s.mu.RLock()
+		values := make([]V, 0, len(s.ma))
 		for _, v := range s.ma {
+			values = append(values, v)
+		}
+		s.mu.RUnlock()
+
+		for _, v := range values {
 			if !yield(v) {
 				return
 			}
